@@ -73,7 +73,9 @@ def extract(n_samples, n_int, n_atoms, basis="ground-rydberg", last_ns=False, mi
         T = env.torch
         pa = env.mod("emu_base.pulser_adapter")
         ts = target_grid(env, n_samples, n_int, last_ns)
-        qids = [f"q{a}" for a in range(n_atoms)]
+        # register order is NOT the sorted order of the ids (Pulser ids are arbitrary strings or ints; after a
+        # serialisation round trip integer ids become strings, whose sort order differs from 10 atoms on)
+        qids = [f"q{a}" for a in range(n_atoms)][::-1]
         data = {}
         raw = {}
         for q in qids:
